@@ -65,6 +65,29 @@ type failingWriter struct{}
 
 func (failingWriter) Write(p []byte) (int, error) { return 0, fmt.Errorf("sink refuses the write") }
 
+// lateFailingWriter accepts the first `room` bytes and refuses everything after them.
+type lateFailingWriter struct{ room int }
+
+func (w *lateFailingWriter) Write(p []byte) (int, error) {
+	if len(p) <= w.room {
+		w.room -= len(p)
+		return len(p), nil
+	}
+	n := w.room
+	w.room = 0
+	return n, fmt.Errorf("sink is full")
+}
+
+// shortWriter reports fewer bytes written than given, without an error (a misbehaving io.Writer).
+type shortWriter struct{}
+
+func (shortWriter) Write(p []byte) (int, error) {
+	if len(p) == 0 {
+		return 0, nil
+	}
+	return len(p) - 1, nil
+}
+
 func itoa(i int) string {
 	if i == 0 {
 		return "0"
@@ -205,13 +228,37 @@ func (r *Runner) execView(o Op, df *dataframe.DataFrame) Out {
 		// failure is reported is recorded, not judged; what matters is that nothing else changes and that later
 		// exports are not affected
 		var err error
-		if o.ViaFile {
+		must := false // the failure cannot go unnoticed by the library: it has to be reported
+		switch {
+		case o.N == 1:
+			// a file that cannot be created
+			must = true
+			err = df.ToCSV(filepath.Join(os.TempDir(), "gf-no-such-dir-for-the-harness", "x", "out.csv"))
+		case o.N == 2:
+			// a file that cannot be opened for reading
+			must = true
+			var got *dataframe.DataFrame
+			got, err = df.FromCSV(filepath.Join(os.TempDir(), "gf-no-such-dir-for-the-harness", "in.csv"))
+			if err != nil && got != nil {
+				return Out{Status: "panic", Msg: "FromCSV returned both an error and a frame"}
+			}
+		case o.N == 3:
+			// a sink that fills up part of the way through
+			err = df.ToCSVWriter(&lateFailingWriter{room: 7})
+		case o.N == 4:
+			err = df.ToCSVWriter(&lateFailingWriter{room: 5000})
+		case o.N == 5:
+			err = df.ToCSVWriter(shortWriter{})
+		case o.ViaFile:
 			err = df.ToCSV("/dev/full")
-		} else {
+		default:
 			err = df.ToCSVWriter(failingWriter{})
 		}
 		if err != nil {
 			return errOut(err)
+		}
+		if must {
+			return Out{Status: "panic", Msg: "an input/output failure that had to be reported was not"}
 		}
 		return Out{Status: "ok", Val: &Val{K: "none"}}
 	case "groupbyother":
